@@ -180,3 +180,18 @@ macro_rules! f0a {
 }
 f0a!(f0_cap_any_m1, 1);
 f0a!(f0_cap_any_m16, 16);
+
+/// The static sentinel's address is the finger of every chunk-less arena, so it must be
+/// aligned to every supported minimum alignment.  The only guarantee about a static's
+/// address is the alignment of its type (CBMC itself places statics at 2^48-aligned
+/// addresses, so the address cannot be observed here; the type's alignment can).
+#[kani::proof]
+pub fn f0_sentinel_align() {
+    let a = core::mem::align_of_val(&crate::EMPTY_CHUNK);
+    assert!(a >= 16, "[C04] static sentinel not guaranteed to be aligned to every supported minimum alignment (16)");
+    assert!(core::mem::size_of_val(&crate::EMPTY_CHUNK) >= FOOTER_SIZE, "[C01] sentinel smaller than a footer");
+    unsafe {
+        assert!(empty_is_pristine(), "[C20] sentinel initial value");
+    }
+    kani::cover!(true, "REACH: end of harness");
+}
